@@ -115,9 +115,28 @@ def stopController : M Unit := do
 
 def enqueue (r : Ready) : M Unit := modS fun s => { s with ready := s.ready ++ [r] }
 
+def newTop (cbs : List TopCb) : M Nat := do
+  let tid ← freshId
+  modS fun s => { s with tops := s.tops ++ [{ tid := tid, cbs := cbs }] }
+  pure tid
+
+/-- the future `tid` is done with value `v`: it leaves the table, its outcome is remembered -/
+def finishTop (tid : Nat) (v : Val) : M Unit :=
+  modS fun s => { s with tops := s.tops.filter (·.tid ≠ tid), doneVals := (tid, v) :: s.doneVals }
+
+def topAddCb (tid : Nat) (cb : TopCb) : M Unit :=
+  modS fun s => { s with tops := s.tops.map fun t => if t.tid = tid then { t with cbs := t.cbs ++ [cb] } else t }
+
+def setSlot (v : Option String) : M Unit := modA fun a => { a with slot := v }
+
+def removeFrame (fid : Nat) : M Unit := modS fun s => { s with frames := s.frames.filter (·.fid ≠ fid) }
+
+def setFrameK (fid : Nat) (k : Kont) : M Unit :=
+  modS fun s => { s with frames := s.frames.map fun g => if g.fid = fid then { g with k := k } else g }
+
 /-- one done-callback of a top-level future -/
 def runTopCb (v : Val) : TopCb → M Unit
-  | .release => modA fun a => { a with slot := none }
+  | .release => setSlot none
   | .reply cid id cast _cmd send xform =>
     match v with
     | .exc _ => if send then sendReply cid id cast "error" "6" "-" else pure ()   -- "server error", BAD_MSG_DATA_ERROR
@@ -127,8 +146,7 @@ def runTopCb (v : Val) : TopCb → M Unit
         | .message => "MessageError" | .conflict => "ConflictError" | .oserror => "OSError"
         | .noSuchProcess => "NoSuchProcess" | .other n => n))
     | _ => pure ()
-  | .popProc wuid pid => modS fun s =>
-      { s with ws := s.ws.map fun w => if w.uid = wuid then { w with pids := w.pids.filter (· ≠ pid) } else w }
+  | .popProc wuid pid => popPid wuid pid
 
 /-- hand a coroutine result to whoever waits for it.  A waiter that is still on the Python
     stack (not yet `armed`) continues synchronously; otherwise the continuation is a callback
@@ -142,7 +160,7 @@ def deliver (rec : Rec) (w : Waiter) (v : Val) : M Unit := do
     match s.tops.find? (·.tid = tid) with
     | none => pure ()
     | some t =>
-      modS fun s => { s with tops := s.tops.filter (·.tid ≠ tid), doneVals := (tid, v) :: s.doneVals }
+      finishTop tid v
       for cb in t.cbs do
         match cb, t.armed with
         | .release, false => runTopCb v .release       -- util.synchronized: future already done, released in place
@@ -159,13 +177,12 @@ def deliver (rec : Rec) (w : Waiter) (v : Val) : M Unit := do
           -- still building the list of children: just record
           let results := results ++ [(slot, v)]
           if results.length ≥ n then
-            modS fun s => { s with frames := s.frames.filter (·.fid ≠ fid) }
+            removeFrame fid
             rec (.resume .pass (multiResult n results) f.parent)
           else
-            modS fun s => { s with frames := s.frames.map fun g =>
-              if g.fid = fid then { g with k := .multi n results } else g }
+            setFrameK fid (.multi n results)
       | k =>
-        modS fun s => { s with frames := s.frames.filter (·.fid ≠ fid) }
+        removeFrame fid
         if f.armed then enqueue (.resume k v f.parent) else rec (.resume k v f.parent)
 
 /-- the per-child callback of an armed gen.multi -/
@@ -178,11 +195,10 @@ def multiCollect (rec : Rec) (fid slot : Nat) (v : Val) : M Unit := do
     | .multi n results =>
       let results := results ++ [(slot, v)]
       if results.length ≥ n then
-        modS fun s => { s with frames := s.frames.filter (·.fid ≠ fid) }
+        removeFrame fid
         rec (.resume .pass (multiResult n results) f.parent)
       else
-        modS fun s => { s with frames := s.frames.map fun g =>
-          if g.fid = fid then { g with k := .multi n results } else g }
+        setFrameK fid (.multi n results)
     | _ => pure ()
 
 def armFrame (fid : Nat) : M Unit :=
